@@ -412,6 +412,12 @@ func (r *Runner) gotoBlock(st *State, to *ssa.BasicBlock) {
 	f := st.top()
 	from := f.blk
 	li := r.loops(f.fn)
+	if s := r.specRec; s != nil && len(st.frames)-1 == s.depth && f.id == s.frameID && !s.body[to.Index] {
+		// speculative run of a loop body: a path that leaves the body (possibly straight to the
+		// header of an enclosing loop) does not influence the state seen at this loop's head
+		st.dead = true
+		return
+	}
 	if body, isHdr := li.body[to.Index]; isHdr {
 		_ = body
 		back := from != nil && to.Dominates(from) && li.body[to.Index][from.Index]
